@@ -100,7 +100,7 @@ func (r *RNG) Intn(n int) int {
 	return int(r.U64() % uint64(n))
 }
 func (r *RNG) Range(lo, hi int) int { return lo + r.Intn(hi-lo+1) } // inclusive
-func (r *RNG) Bool() bool          { return r.U64()&1 == 1 }
+func (r *RNG) Bool() bool           { return r.U64()&1 == 1 }
 func (r *RNG) Chance(pct int) bool  { return r.Intn(100) < pct }
 func (r *RNG) Bytes(n int) []byte {
 	b := make([]byte, n)
@@ -221,10 +221,10 @@ func (r *Run) Sample(v interface{}) {
 	}
 	r.mu.Unlock()
 }
-func (r *Run) Assume(s string)                    { r.mu.Lock(); r.assumptions = append(r.assumptions, s); r.mu.Unlock() }
-func (r *Run) Extra(k string, v interface{})      { r.mu.Lock(); r.extra[k] = v; r.mu.Unlock() }
-func (r *Run) Inconclusive(why string)            { r.mu.Lock(); r.incon = append(r.incon, why); r.mu.Unlock() }
-func (r *Run) Violations() int                    { r.mu.Lock(); defer r.mu.Unlock(); return r.violations }
+func (r *Run) Assume(s string)               { r.mu.Lock(); r.assumptions = append(r.assumptions, s); r.mu.Unlock() }
+func (r *Run) Extra(k string, v interface{}) { r.mu.Lock(); r.extra[k] = v; r.mu.Unlock() }
+func (r *Run) Inconclusive(why string)       { r.mu.Lock(); r.incon = append(r.incon, why); r.mu.Unlock() }
+func (r *Run) Violations() int               { r.mu.Lock(); defer r.mu.Unlock(); return r.violations }
 
 // Require marks the run inconclusive when an oracle branch was never observed.
 func (r *Run) Require(counter string, min int64) {
